@@ -10,7 +10,8 @@ def mc(module, quick, thorough, **kw):
     return d
 
 WRAP = [mc("MC_Wrap", "MC_Wrap.cfg", "MC_Wrap_t.cfg", timeout_thorough=3000, heap="12g"),
-        mc("MC_Wrap", "MC_Wrap_u.cfg", "MC_Wrap_ut.cfg", timeout_thorough=3000, heap="12g")]
+        mc("MC_Wrap", "MC_Wrap_u.cfg", "MC_Wrap_ut.cfg", timeout_thorough=3000, heap="12g"),
+        mc("MC_Wrap", "MC_Wrap_c.cfg", "MC_Wrap_c.cfg")]      # CRLF line ending with lone CR / LF in the text
 ANSI = mc("MC_Ansi", "MC_Ansi.cfg", "MC_Ansi_t.cfg")
 WORDS = mc("MC_Words", "MC_Words.cfg", "MC_Words_t.cfg")
 BREAK = mc("MC_Break", "MC_Break.cfg", "MC_Break_t.cfg")
@@ -32,7 +33,7 @@ PROPS = {
     "C03": {"builds": ["full"], "mc": OPT + [WRAP[0]]},
     "C04": {"builds": BOTH, "mc": [WRAP[0], REFILL, INPLACE, COLUMNS, mc("MC_Break", None, "MC_Break_t.cfg")] + LIVE_QUICK + LIVE_THOROUGH,
             "replay_cap_quick": 4000},
-    "C05": {"builds": BOTH, "mc": [WRAP[0], REL]},
+    "C05": {"builds": BOTH, "mc": [WRAP[0], WRAP[2], REL]},
     "C06": {"builds": BOTH, "mc": [FF, OPT[0]]},
     "C07": {"builds": BOTH, "mc": [FF, WRAP[0]]},
     "C08": {"builds": BOTH, "mc": WRAP},
